@@ -24,7 +24,7 @@ RULE = ("generated bases: FileSpecs (versions 1.2/2.0, WRAP NO/YES, DLM SPACE/TA
 ASSUMPTIONS = [
     "blank and comment lines are never inserted inside ~Other, whose lines are content",
     "WRAP=YES files declare exactly the curves they carry and use the SPACE delimiter; each depth step starts on a new line",
-    "data tokens are plain decimal numbers (no quotes, no embedded delimiter characters)",
+    "data tokens are plain decimal numbers, plain words or ISO dates (no quotes, no embedded delimiter characters or blanks)",
 ]
 
 DLM_SEP = {"SPACE": " ", "TAB": "\t", "COMMA": ","}
@@ -126,13 +126,39 @@ def oracle(case):
     ca, cb = canon.from_las(a), canon.from_las(b)
     d = canon.diff(cb, ca, names=("variant", "base"))
     if d:
-        out.fail("variant-differs|%s|%s|%s" % (d[0][0], tag, blame(spec, d[0][0], kinds)),
+        out.fail("text-token-keeps-delimiter-padding" if padded_text_tokens(spec, dlm) and d[0][0] == "data.cell" else
+                 "variant-differs|%s|%s|%s" % (d[0][0], tag, blame(spec, d[0][0], kinds)),
                  canon.show(d) + "\n--- variant ---\n" + vtext + "\n--- base ---\n" + btext)
         return out
     dd, _, _ = compare_with_expected(a, base, mnemonic_case=mc)
     if dd:
         out.fail("base-differs-from-expected|%s|%s" % (dd[0][0], tag), canon.show(dd) + "\n" + btext)
     return out
+
+
+def padded_text_tokens(spec, dlm):
+    """Open finding D40: a non-numeric data token next to padding blanks of a COMMA/TAB delimiter."""
+    if dlm not in ("COMMA", "TAB"):
+        return False
+    for sec in spec["sections"]:
+        if sec["kind"] != "A":
+            continue
+        for ln in sec["lines"]:
+            if ln["t"] != "row":
+                continue
+            for i, tok in enumerate(ln["toks"]):
+                try:
+                    float(tok)
+                    continue
+                except ValueError:
+                    pass
+                before = (ln.get("lead", "") if i == 0 else ln["seps"][i - 1])
+                after = (ln.get("trail", "") if i == len(ln["toks"]) - 1 else ln["seps"][i])
+                if before.strip(",\t") != before.strip(",\t").strip() or before[-1:] in " \t" and before.strip() in (",", "") and before != "\t" and before != "," :
+                    return True
+                if after[:1] == " " or (after[:1] == "\t" and dlm == "COMMA"):
+                    return True
+    return False
 
 
 def first_kind(kinds):
@@ -156,7 +182,8 @@ def blame(spec, loc, kinds):
 NOISE = st.sampled_from([{"t": "blank", "text": ""}, {"t": "blank", "text": "   "}, {"t": "blank", "text": "\t"},
                          {"t": "comment", "text": "# a comment"}, {"t": "comment", "text": "#"},
                          {"t": "comment", "text": "   # indented comment : with . punctuation"},
-                         {"t": "comment", "text": "#MNEM.UNIT   VALUE : DESCRIPTION"}, {"t": "comment", "text": "# 1 2 3"}])
+                         {"t": "comment", "text": "#MNEM.UNIT   VALUE : DESCRIPTION"}, {"t": "comment", "text": "# 1 2 3"},
+                         {"t": "comment", "text": "# note - with a hyphen"}, {"t": "comment", "text": "#-----"}])
 TPAD = st.sampled_from(["", "", " ", "  ", "\t"])
 
 
@@ -216,18 +243,31 @@ def variants(draw):
     tok = st.one_of(S.number_token(spellings=("int", "fixed", "exp")), st.just("-999.25"))
     sep_char = DLM_SEP[dlm or "SPACE"]
     rows = []
+    # optional text columns: plain words, or ISO dates (a '-' between digits in every data line)
+    word_col = draw(st.integers(1, c - 1)) if c >= 2 and draw(st.integers(0, 4)) == 0 else None
+    # dates only in unwrapped files: there every data line carries the hyphen, which is what lasio documents as the
+    # condition for leaving 2020-01-01 alone (in a wrapped file the default run-on(-) substitution legitimately applies)
+    date_col = draw(st.integers(1, c - 1)) if c >= 3 and not wrapped and draw(st.integers(0, 4)) == 0 else None
+    if date_col == word_col:
+        date_col = None
     for i in range(r):
         toks = [draw(tok) for _ in range(c)]
         toks[0] = str(i + 1)
+        if word_col is not None:
+            toks[word_col] = draw(st.sampled_from(["abc", "LIME", "x1", "N/A", "sand"]))
+        if date_col is not None:
+            toks[date_col] = "2020-01-%02d" % (i + 1)
+        # open finding D40: text tokens keep the blanks that pad a COMMA/TAB delimiter -> no padding next to text tokens
+        rich_rows = pad_rich and not (sep_char != " " and (word_col is not None or date_col is not None))
         if wrapped:
             # cut the depth step at arbitrary token boundaries; each step starts on a new line
             k = 0
             while k < c:
                 n = draw(st.integers(1, c - k))
-                rows.append(mkrow(draw, toks[k:k + n], sep_char, pad_rich))
+                rows.append(mkrow(draw, toks[k:k + n], sep_char, rich_rows))
                 k += n
         else:
-            rows.append(mkrow(draw, toks, sep_char, pad_rich))
+            rows.append(mkrow(draw, toks, sep_char, rich_rows))
     asec = lastext.section("A", draw(st.sampled_from(["~A", "~ASCII", "~A  DEPT GR"])), rows, ncols=c)
     secs.append(asec)
     if draw(st.integers(0, 3)) == 0 and len(secs) > 4:
